@@ -184,6 +184,21 @@ def _run_colfile(desc):
                     r3 = C.colfile_from_hdf(h2, name="pk")
                 if set(r3.titles) != set(titles) or any(not same(r3.getcolumn(t), cols[t]) for t in titles):
                     sh.violation("hdf:colfileobj_to_hdf-round-trip", case, {})
+                # one file holding several tables (2-D and 4-D peaks, a map and its refined version): each comes back under its own name,
+                # whatever its place in the file
+                h3 = os.path.join(wd, "c.h5")
+                if os.path.exists(h3):
+                    os.remove(h3)
+                other = C.colfile_from_dict({"zz": np.arange(4.0), "yy": np.arange(4.0) * 2})
+                C.colfile_to_hdf(other, h3, name="aaa_first")
+                C.colfile_to_hdf(cf, h3, name="peaks")
+                C.colfile_to_hdf(other, h3, name="zzz_last")
+                with contextlib.redirect_stdout(io.StringIO()):
+                    byname = {nm: C.colfile_from_hdf(h3, name=nm) for nm in ("peaks", "aaa_first", "zzz_last")}
+                if set(byname["peaks"].titles) != set(titles) or byname["peaks"].nrows != cf.nrows or any(not same(byname["peaks"].getcolumn(t), cols[t]) for t in titles):
+                    sh.violation("hdf:table-read-by-name-from-a-file-with-several-tables-is-another-table", dict(case, name="peaks"), {"titles_read": list(byname["peaks"].titles)})
+                elif any(set(byname[nm].titles) != {"zz", "yy"} or byname[nm].nrows != 4 for nm in ("aaa_first", "zzz_last")):
+                    sh.violation("hdf:table-read-by-name-from-a-file-with-several-tables-is-another-table", dict(case, name="aaa_first/zzz_last"), {})
                 sh.evaluations += 1
                 if rounds:
                     sh.nontrivial += 1
